@@ -209,6 +209,9 @@ func (f *Frame) instr(b *ssa.BasicBlock, bi *BInfo, idx int, ins ssa.Instruction
 		}
 		f.rets = append(f.rets, retRec{cond: bi.R, st: bi.out.clone(), vals: vals})
 		if f == f.top && !f.specMode {
+			// reachability of this return under everything assumed so far (vacuity guard)
+			g.addObl(&Obligation{Name: f.oblName("cover", "return"), Kind: "cover-return", Fn: fnDisplay(f.fn), Goal: bi.R, ExpectSat: true, TimeoutS: 2,
+				Pos: g.fset.Position(f.curPos), Text: "this return is reachable"})
 			f.checkPost(bi, vals)
 		}
 	case *ssa.Jump:
